@@ -2,7 +2,7 @@
     computes exactly the reference semantics (Spec/Peg.v): verdict, end position, live tokens
     = post-order of the derivation forest, maxToken = first-furthest fold over the attempt's
     events; the memo table stays justified and absorbed. *)
-From PegV Require Import Base.Tac Base.ListX Spec.Syntax Spec.Peg Spec.WF Model.Machine Proofs.PegFacts.
+From PegV Require Import Base.Tac Base.ListX Spec.Syntax Spec.Peg Spec.WF Model.Machine Model.SkipCheck Proofs.PegFacts.
 
 Arguments live : simpl never.
 Arguments flat : simpl never.
@@ -34,6 +34,8 @@ Variable o : opts.
 
 Hypothesis Hast : o_ast o = true.
 Hypothesis Hg : forall r b, nth_error g r = Some (RBody b) -> expr_ok b = true.
+(** every switch of the grammar is well guarded (trivial when -switch is off; re-checked per grammar otherwise) *)
+Hypothesis Hsw : grammar_swok g (o_inline o).
 (** calls emitted without a failure branch really cannot fail (discharged by always_succeeds_sound) *)
 Hypothesis Hasu : forall r, o_asu o r = true -> forall n p evs, peg_ev g ptx buf penv n (EName r) p <> Some (Fail, evs).
 
@@ -133,39 +135,57 @@ Proof.
   split; [apply set_at_firstn; exact H|]. split; reflexivity.
 Qed.
 
+Notation chain := (chain g (o_inline o)).
+Notation swok := (swok g (o_inline o)).
+
+(** when the skip flag is set, the case guard has established a character that the first terminal accepts *)
+Definition flag_ok (e : expr) (pd mk : bool) (st : mstate) : Prop :=
+  pd = true -> exists c, nth_error buf (pos st) = Some c /\ chain e mk c.
+
+Lemma flag_ok_false e mk st : flag_ok e false mk st.
+Proof. intros H; discriminate. Qed.
+
+Lemma swok_seq es : swok (ESeq es) <-> Forall swok es.
+Proof. cbn [SkipCheck.swok]. induction es as [|x es IH]; [split; constructor|]. rewrite IH. split; [intros [A B]; constructor; auto|intros H; inv H; auto]. Qed.
+Lemma swok_alt es : swok (EAlt es) <-> Forall swok es.
+Proof. cbn [SkipCheck.swok]. induction es as [|x es IH]; [split; constructor|]. rewrite IH. split; [intros [A B]; constructor; auto|intros H; inv H; auto]. Qed.
+
 Definition IHn (n : nat) : Prop :=
-  forall e st r, okst st -> memo_ok st -> expr_ok e = true ->
-    ev n e (pos st) = Some r -> simr (live st) (maxtok st) r (run n e false false st).
+  forall e pd mk st r, okst st -> memo_ok st -> expr_ok e = true -> swok e -> flag_ok e pd mk st ->
+    ev n e (pos st) = Some r -> simr (live st) (maxtok st) r (run n e pd mk st).
 
 Lemma seq_sim n (IH : IHn n) :
-  forall es st r, okst st -> memo_ok st -> forallb expr_ok es = true ->
-    seq_ev (ev n) es (pos st) = Some r -> simr (live st) (maxtok st) r (seq_run (run n) es false false st).
+  forall es pd mk st r, okst st -> memo_ok st -> forallb expr_ok es = true -> Forall swok es ->
+    flag_ok (ESeq es) pd mk st ->
+    seq_ev (ev n) es (pos st) = Some r -> simr (live st) (maxtok st) r (seq_run (run n) es pd mk st).
 Proof.
-  induction es as [|e es IHes]; intros st r Hok Hm Hes H; cbn [seq_ev seq_run forallb] in *.
+  induction es as [|e es IHes]; intros pd mk st r Hok Hm Hes Hsws Hfl H; cbn [seq_ev seq_run forallb] in *.
   - inv H. cbn [simr]. exists st. rewrite app_nil_r, Nat.add_0_r. pose proof (live_length st Hok). auto 10.
-  - apply andb_true_iff in Hes as [He Hes].
+  - apply andb_true_iff in Hes as [He Hes]. pose proof (Forall_inv Hsws) as Hsw1; pose proof (Forall_inv_tail Hsws) as Hsw2.
+    assert (Hfe : flag_ok e pd mk st).
+    { intros Hpd. destruct (Hfl Hpd) as (c & Hc & Hch). exists c. split; [exact Hc|]. inv Hch. assumption. }
     destruct (ev n e (pos st)) as [[[|p1 f1] evs1]|] eqn:E; try discriminate.
-    + inv H. specialize (IH e st _ Hok Hm He E). cbn [simr] in IH. destruct IH as (st' & R & IH).
+    + inv H. specialize (IH e pd mk st _ Hok Hm He Hsw1 Hfe E). cbn [simr] in IH. destruct IH as (st' & R & IH).
       rewrite R. cbn [simr]. exists st'. auto.
-    + specialize (IH e st _ Hok Hm He E). cbn [simr] in IH.
+    + specialize (IH e pd mk st _ Hok Hm He Hsw1 Hfe E). cbn [simr] in IH.
       destruct IH as (st1 & R & P1 & Ok1 & T1 & L1 & M1 & Mm1). rewrite R.
       destruct (seq_ev (ev n) es p1) as [r2|] eqn:E2; [|discriminate].
-      rewrite <- P1 in E2. specialize (IHes st1 r2 Ok1 Mm1 Hes E2).
+      rewrite <- P1 in E2. specialize (IHes false false st1 r2 Ok1 Mm1 Hes Hsw2 (flag_ok_false _ _ _) E2).
       assert (r = combine (Succ p1 f1, evs1) r2) as -> by (destruct r2 as [[|? ?] ?]; inv H; reflexivity).
       eapply simr_seq; eauto. apply Ok1.
 Qed.
 
 Lemma alt_sim n (IH : IHn n) :
-  forall es st r, okst st -> memo_ok st -> forallb expr_ok es = true ->
+  forall es st r, okst st -> memo_ok st -> forallb expr_ok es = true -> Forall swok es ->
     alt_ev (ev n) es (pos st) = Some r ->
     simr (live st) (maxtok st) r (alt_run (run n) es false false (pos st) (tix st) st).
 Proof.
-  induction es as [|e es IHes]; intros st r Hok Hm Hes H; cbn [alt_ev alt_run forallb] in *.
+  induction es as [|e es IHes]; intros st r Hok Hm Hes Hsws H; cbn [alt_ev alt_run forallb] in *.
   - inv H. cbn [simr]. exists st. pose proof (live_length st Hok). destruct Hok. unfold live in *.
     split; [reflexivity|]. split; [lia|]. split; [rewrite H; reflexivity|]. auto.
-  - apply andb_true_iff in Hes as [He Hes].
+  - apply andb_true_iff in Hes as [He Hes]. pose proof (Forall_inv Hsws) as Hsw1; pose proof (Forall_inv_tail Hsws) as Hsw2.
     destruct (ev n e (pos st)) as [[[|p1 f1] evs1]|] eqn:E; try discriminate.
-    + specialize (IH e st _ Hok Hm He E). cbn [simr] in IH. destruct IH as (st1 & R & A & B & D & F). rewrite R.
+    + specialize (IH e false false st _ Hok Hm He Hsw1 (flag_ok_false _ _ _) E). cbn [simr] in IH. destruct IH as (st1 & R & A & B & D & F). rewrite R.
       destruct es as [|e2 es].
       * inv H. cbn [simr]. exists st1. auto 10.
       * destruct (alt_ev (ev n) (e2 :: es) (pos st)) as [[r2 evs2]|] eqn:E2; [|discriminate]. inv H.
@@ -174,11 +194,11 @@ Proof.
         pose proof (live_length st (conj Hp Ht)) as LL.
         rewrite LL in *. set (st1' := restore (pos st) (tix st) st1) in *.
         assert (E2' : alt_ev (ev n) (e2 :: es) (pos st1') = Some (r2, evs2)) by (rewrite P1; exact E2).
-        specialize (IHes st1' _ Ok1 Mm1 Hes E2').
+        specialize (IHes st1' _ Ok1 Mm1 Hes Hsw2 E2').
         rewrite L1, M1 in IHes. apply simr_prepend in IHes. cbn [fst snd] in IHes.
         replace (pos st1') with (pos st) in IHes by (symmetry; exact P1).
         replace (tix st1') with (tix st) in IHes by reflexivity. exact IHes.
-    + inv H. specialize (IH e st _ Hok Hm He E). cbn [simr] in IH.
+    + inv H. specialize (IH e false false st _ Hok Hm He Hsw1 (flag_ok_false _ _ _) E). cbn [simr] in IH.
       destruct IH as (st1 & R & IH). rewrite R. cbn [simr]. exists st1. auto.
 Qed.
 
@@ -249,16 +269,25 @@ Proof.
   - intros H; inv H. exists []. split; [reflexivity|]. left. reflexivity.
 Qed.
 
-Lemma ipush_sim n (IH : IHn n) r st rr :
-  okst st -> memo_ok st -> ev (S n) (EName r) (pos st) = Some rr ->
-  simr (live st) (maxtok st) rr (ipush_run g o (run n) r false false st).
+Lemma ipush_sim n (IH : IHn n) r pd mk st rr :
+  okst st -> memo_ok st -> (pd = true -> o_inline o r = true) -> flag_ok (EName r) pd mk st ->
+  ev (S n) (EName r) (pos st) = Some rr ->
+  simr (live st) (maxtok st) rr (ipush_run g o (run n) r pd mk st).
 Proof.
-  intros Hok Hm H. pose proof (live_length st Hok) as LL.
+  intros Hok Hm Hinl Hfl H. pose proof (live_length st Hok) as LL.
   cbn [peg_ev] in H. unfold ipush_run.
   destruct (nth_error g r) as [[b|k|]|] eqn:Eg; try discriminate.
-  - pose proof (Hg _ _ Eg) as Hb.
+  - pose proof (Hg _ _ Eg) as Hb. pose proof (Hsw _ _ Eg) as Hswb.
+    assert (Hfb : flag_ok b pd mk st).
+    { intros Hpd. destruct (Hfl Hpd) as (c & Hc & Hch). exists c. split; [exact Hc|].
+      inv Hch;
+        first
+        [ match goal with H1 : nth_error g r = Some (RBody ?b0), H2 : SkipCheck.chain _ _ ?b0 _ _ |- _ =>
+            rewrite Eg in H1; inv H1; exact H2 end
+        | match goal with H1 : forall b, nth_error g r <> Some (RBody b) |- _ => exfalso; exact (H1 _ Eg) end
+        | match goal with H1 : o_inline o r = false |- _ => rewrite (Hinl eq_refl) in H1; discriminate end ]. }
     destruct (ev n b (pos st)) as [[[|p1 f1] evs1]|] eqn:E; try discriminate; inv H;
-      specialize (IH b st _ Hok Hm Hb E); cbn [simr] in IH.
+      specialize (IH b pd mk st _ Hok Hm Hb Hswb Hfb E); cbn [simr] in IH.
     + destruct IH as (st1 & R & IH). rewrite R. cbn [simr]. exists st1. auto.
     + destruct IH as (st1 & R & P1 & Ok1 & T1 & L1 & M1 & Mm1). rewrite R.
       destruct (wrap_facts _ _ r (pos st) _ _ _ st1 P1 Ok1 T1 L1 M1 Mm1) as (A & B & C & D & F & G).
@@ -319,7 +348,7 @@ Proof.
         specialize (Habs _ Hin Ne). cbn in Habs. destruct (Nat.ltb_spec (tk_end (maxtok st)) p); [lia|reflexivity]. }
       rewrite Hc. split; [symmetry; exact Hfold|]. exact Hm.
   - (* miss: run the body *)
-    pose proof (ipush_sim n IH r st rr Hok Hm H) as S1.
+    pose proof (ipush_sim n IH r false false st rr Hok Hm (fun Hx => ltac:(discriminate)) (flag_ok_false _ _ _) H) as S1.
     destruct rr as [[|p1 f1] evs1]; cbn [simr] in S1.
     + destruct S1 as (st1 & R & A & B & M1 & Mm1). rewrite R.
       destruct (memoize_facts r (pos st) (tix st) false st1) as (F1 & F2 & F3 & F4).
@@ -357,29 +386,72 @@ Proof.
   - cbn [simr] in S1. destruct S1 as (st1 & R & S1). rewrite R. cbn [simr]. exists st1. auto.
 Qed.
 
+Lemma find_case_keys_spec cs c keys e1 :
+  find_case_keys cs c = Some (keys, e1) -> In (keys, e1) cs /\ In c keys.
+Proof.
+  induction cs as [|[k x] cs IH]; cbn [find_case_keys]; [discriminate|].
+  destruct (existsb (Z.eqb c) k) eqn:E.
+  - intros H; inv H. split; [left; reflexivity|]. apply existsb_exists in E as (y & Hy & Ey). apply Z.eqb_eq in Ey. subst. exact Hy.
+  - intros H. destruct (IH H). split; [right|]; auto.
+Qed.
+
+Lemma find_case_keys_end cs :
+  forallb (fun c => forallb (fun k => Z.ltb k endSymbol) (fst c) && expr_ok (snd c)) cs = true ->
+  find_case_keys cs endSymbol = None.
+Proof.
+  induction cs as [|[k x] cs IH]; cbn [find_case_keys forallb]; intros H; [reflexivity|].
+  apply andb_true_iff in H as [H1 H2]. cbn [fst snd] in H1. apply andb_true_iff in H1 as [Hk _].
+  destruct (existsb (Z.eqb endSymbol) k) eqn:E; [|auto].
+  apply existsb_exists in E as (y & Hy & Ey). apply Z.eqb_eq in Ey. subst y.
+  rewrite forallb_forall in Hk. specialize (Hk _ Hy). apply Z.ltb_lt in Hk. lia.
+Qed.
+
+Lemma swok_switch_case cs d keys e1 c :
+  swok (ESwitch cs d) -> In (keys, e1) cs -> In c keys -> swok e1 /\ chain e1 (Nat.ltb 1 (length keys)) c.
+Proof.
+  cbn [SkipCheck.swok]. intros [_ H] Hin Hc. induction cs as [|[k x] cs IH]; [destruct Hin|].
+  destruct H as [[H1 H2] H3]. destruct Hin as [E|Hin]; [inv E; auto|auto].
+Qed.
+
 Theorem sim n : IHn n.
 Proof.
-  induction n as [|n IH]; intros e st r Hok Hm He H; [discriminate|].
+  induction n as [|n IH]; intros e pd mk st r Hok Hm He Hswe Hfl H; [discriminate|].
   pose proof (live_length st Hok) as LL. pose proof Hok as [Hp Ht].
   destruct e; cbn [expr_ok] in He; try discriminate; cbn [peg_ev] in H; cbn [run_f andb negb].
-  - (* EDot *) inv H. apply term_sim; auto.
-    intros c Hc. destruct (Z.eqb_spec c endSymbol); [contradiction|reflexivity].
-  - (* EChar *) inv H. apply term_sim; auto. apply Z.ltb_lt in He. destruct (Z.eqb_spec c endSymbol); [lia|reflexivity].
-  - (* ERange *) inv H. apply term_sim; auto. apply Z.ltb_lt in He. unfold in_range. destruct (Z.leb_spec endSymbol hi); [lia|]. rewrite andb_false_r. reflexivity.
+  - (* EDot *) destruct pd.
+    + destruct (Hfl eq_refl) as (c & _ & Hch). inv Hch.
+    + inv H. apply term_sim; auto.
+      intros c Hc. destruct (Z.eqb_spec c endSymbol); [contradiction|reflexivity].
+  - (* EChar *) apply Z.ltb_lt in He.
+    destruct pd; [destruct mk|]; cbn [andb negb].
+    + inv H. apply term_sim; auto. destruct (Z.eqb_spec c endSymbol); [lia|reflexivity].
+    + (* the test is skipped: the guard has established the character *)
+      destruct (Hfl eq_refl) as (c0 & Hc0 & Hch). inv Hch. inv H. unfold term. rewrite Hc0, Z.eqb_refl.
+      cbn [simr]. exists (advance st). unfold okst, live, advance, set_pos, memo_ok in *; cbn.
+      assert (pos st < length buf) by (apply nth_error_Some; congruence).
+      rewrite app_nil_r, Nat.add_0_r. split; [reflexivity|]. split; [reflexivity|]. split; [split; lia|]. split; [lia|]. auto.
+    + inv H. apply term_sim; auto. destruct (Z.eqb_spec c endSymbol); [lia|reflexivity].
+  - (* ERange *) apply Z.ltb_lt in He. destruct pd.
+    + destruct (Hfl eq_refl) as (c0 & Hc0 & Hch). inv Hch. inv H. unfold term. rewrite Hc0.
+      match goal with Hr : in_range lo hi c0 = true |- _ => rewrite Hr end.
+      cbn [simr]. exists (advance st). unfold okst, live, advance, set_pos, memo_ok in *; cbn.
+      assert (pos st < length buf) by (apply nth_error_Some; congruence).
+      rewrite app_nil_r, Nat.add_0_r. split; [reflexivity|]. split; [reflexivity|]. split; [split; lia|]. split; [lia|]. auto.
+    + inv H. apply term_sim; auto. unfold in_range. destruct (Z.leb_spec endSymbol hi); [lia|]. rewrite andb_false_r. reflexivity.
   - (* EName *)
     assert (H' : ev (S n) (EName r0) (pos st) = Some r) by exact H.
-    destruct (o_inline o r0); [apply ipush_sim | apply call_sim]; auto.
+    destruct (o_inline o r0) eqn:Einl; [apply ipush_sim | apply call_sim]; auto.
   - (* EPred *) inv H. destruct (penv k (pos st)).
     + apply simr_succ_empty; auto.
     + apply simr_fail; auto; rewrite LL; [lia|reflexivity].
   - (* EState *) inv H. apply simr_succ_empty; auto.
   - (* EAct *) inv H. apply simr_succ_empty; auto.
   - (* ENil *) inv H. apply simr_succ_empty; auto.
-  - (* ESeq *) apply seq_sim; auto.
-  - (* EAlt *) apply alt_sim; auto.
+  - (* ESeq *) apply seq_sim; auto. apply swok_seq. exact Hswe.
+  - (* EAlt *) apply alt_sim; auto. apply swok_alt. exact Hswe.
   - (* EAnd *)
     destruct (ev n e (pos st)) as [[[|p1 f1] evs1]|] eqn:E; try discriminate; inv H;
-      specialize (IH e st _ Hok Hm He E); cbn [simr] in IH.
+      specialize (IH e false false st _ Hok Hm He Hswe (flag_ok_false _ _ _) E); cbn [simr] in IH.
     + destruct IH as (st1 & R & IH). rewrite R. cbn [simr]. exists st1. auto.
     + destruct IH as (st1 & R & P1 & Ok1 & T1 & L1 & M1 & Mm1). rewrite R.
       destruct (succ_frame _ _ _ L1 T1 (proj2 Ok1)) as [A B].
@@ -387,7 +459,7 @@ Proof.
       rewrite LL in *. apply simr_succ_empty; auto; try (rewrite LL; reflexivity).
   - (* ENot *)
     destruct (ev n e (pos st)) as [[[|p1 f1] evs1]|] eqn:E; try discriminate; inv H;
-      specialize (IH e st _ Hok Hm He E); cbn [simr] in IH.
+      specialize (IH e false false st _ Hok Hm He Hswe (flag_ok_false _ _ _) E); cbn [simr] in IH.
     + destruct IH as (st1 & R & A & B & M1 & Mm1). rewrite R.
       destruct (after_fail _ _ _ st1 (pos st) A B M1 Mm1 Hp) as (Ok' & Mm' & L' & M' & P').
       rewrite LL in *. apply simr_succ_empty; auto; try (rewrite LL; reflexivity).
@@ -395,38 +467,56 @@ Proof.
       destruct (succ_frame _ _ _ L1 T1 (proj2 Ok1)) as [A B]. apply simr_fail; auto.
   - (* EQuery *)
     destruct (ev n e (pos st)) as [[[|p1 f1] evs1]|] eqn:E; try discriminate; inv H;
-      specialize (IH e st _ Hok Hm He E); cbn [simr] in IH.
+      specialize (IH e false false st _ Hok Hm He Hswe (flag_ok_false _ _ _) E); cbn [simr] in IH.
     + destruct IH as (st1 & R & A & B & M1 & Mm1). rewrite R.
       destruct (after_fail _ _ _ st1 (pos st) A B M1 Mm1 Hp) as (Ok' & Mm' & L' & M' & P').
       rewrite LL in *. apply simr_succ_empty; auto; try (rewrite LL; reflexivity).
     + destruct IH as (st1 & R & IH). rewrite R. cbn [simr]. exists st1. auto.
   - (* EStar *)
     destruct (ev n e (pos st)) as [[[|p1 f1] evs1]|] eqn:E; try discriminate;
-      pose proof (IH e st _ Hok Hm He E) as IH1; cbn [simr] in IH1.
+      pose proof (IH e false false st _ Hok Hm He Hswe (flag_ok_false _ _ _) E) as IH1; cbn [simr] in IH1.
     + inv H. destruct IH1 as (st1 & R & A & B & M1 & Mm1). rewrite R.
       destruct (after_fail _ _ _ st1 (pos st) A B M1 Mm1 Hp) as (Ok' & Mm' & L' & M' & P').
       rewrite LL in *. apply simr_succ_empty; auto; try (rewrite LL; reflexivity).
     + destruct IH1 as (st1 & R & P1 & Ok1 & T1 & L1 & M1 & Mm1). rewrite R.
       destruct (ev n (EStar e) p1) as [r2|] eqn:E2; [|discriminate].
-      rewrite <- P1 in E2. pose proof (IH (EStar e) st1 r2 Ok1 Mm1 He E2) as IH2.
+      rewrite <- P1 in E2. pose proof (IH (EStar e) false false st1 r2 Ok1 Mm1 He Hswe (flag_ok_false _ _ _) E2) as IH2.
       assert (r = combine (Succ p1 f1, evs1) r2) as -> by (destruct r2 as [[|? ?] ?]; inv H; reflexivity).
       eapply simr_seq; eauto. apply Ok1.
   - (* EPlus *)
     destruct (ev n e (pos st)) as [[[|p1 f1] evs1]|] eqn:E; try discriminate;
-      pose proof (IH e st _ Hok Hm He E) as IH1; cbn [simr] in IH1.
+      pose proof (IH e false false st _ Hok Hm He Hswe (flag_ok_false _ _ _) E) as IH1; cbn [simr] in IH1.
     + inv H. destruct IH1 as (st1 & R & IH1). rewrite R. cbn [simr]. exists st1. auto.
     + destruct IH1 as (st1 & R & P1 & Ok1 & T1 & L1 & M1 & Mm1). rewrite R.
       destruct (ev n (EStar e) p1) as [r2|] eqn:E2; [|discriminate].
-      rewrite <- P1 in E2. pose proof (IH (EStar e) st1 r2 Ok1 Mm1 He E2) as IH2.
+      rewrite <- P1 in E2. pose proof (IH (EStar e) false false st1 r2 Ok1 Mm1 He Hswe (flag_ok_false _ _ _) E2) as IH2.
       assert (r = combine (Succ p1 f1, evs1) r2) as -> by (destruct r2 as [[|? ?] ?]; inv H; reflexivity).
       eapply simr_seq; eauto. apply Ok1.
   - (* EPush *)
+    assert (Hfe : flag_ok e pd mk st).
+    { intros Hpd. destruct (Hfl Hpd) as (c & Hc & Hch). exists c. split; [exact Hc|]. inv Hch. assumption. }
     destruct (ev n e (pos st)) as [[[|p1 f1] evs1]|] eqn:E; try discriminate; inv H;
-      specialize (IH e st _ Hok Hm He E); cbn [simr] in IH.
+      specialize (IH e pd mk st _ Hok Hm He Hswe Hfe E); cbn [simr] in IH.
     + destruct IH as (st1 & R & IH). rewrite R. cbn [simr]. exists st1. auto.
     + destruct IH as (st1 & R & P1 & Ok1 & T1 & L1 & M1 & Mm1). rewrite R, Hast.
       destruct (wrap_facts _ _ ptx (pos st) _ _ _ st1 P1 Ok1 T1 L1 M1 Mm1) as (A & B & C & D & F & G).
       cbn [simr]. eexists. split; [reflexivity|]. auto 10.
+  - (* ESwitch *)
+    apply andb_true_iff in He as [Hec Hed].
+    assert (Hswd : swok e) by (cbn [SkipCheck.swok] in Hswe; apply Hswe).
+    unfold rd, sbuf.
+    destruct (nth_error buf (pos st)) as [c|] eqn:Ec.
+    + rewrite nth_error_app1 by (apply nth_error_Some; congruence). rewrite Ec.
+      unfold find_case in H. destruct (find_case_keys cs c) as [[keys e1]|] eqn:Ef; cbn [option_map snd] in H.
+      * destruct (find_case_keys_spec _ _ _ _ Ef) as [Hin Hck].
+        destruct (swok_switch_case _ _ _ _ _ Hswe Hin Hck) as [Hsw1 Hch1].
+        assert (He1 : expr_ok e1 = true).
+        { rewrite forallb_forall in Hec. specialize (Hec _ Hin). cbn [fst snd] in Hec. apply andb_true_iff in Hec as [_ X]. exact X. }
+        apply IH; auto. intros _. exists c. auto.
+      * apply IH; auto. apply flag_ok_false.
+    + apply nth_error_None in Ec. assert (pos st = length buf) by lia.
+      rewrite nth_error_app2 by lia. replace (pos st - length buf) with 0 by lia. cbn [nth_error].
+      rewrite (find_case_keys_end _ Hec). apply IH; auto. apply flag_ok_false.
 Qed.
 
 End Sim.
